@@ -120,9 +120,14 @@ class ScalarGen:
         if op in ("<<", ">>"):
             right = str(rng.randint(0, 31))
         elif op == "**":
+            if rng.random() < 0.3:
+                # constant base, run-time exponent (negative exponents: both sides of the model give 0, A2)
+                return f"({lit(const(rng, small=True))} ** {left})"
             right = str(rng.randint(0, 5))
         else:
             right = self.operand(depth)
+        if op in ("<<", ">>") and rng.random() < 0.2:
+            return f"({lit(const(rng, small=True))} {op} {left})"
         if rng.random() < 0.15 and op not in ("<<", ">>", "**"):
             left, right = right, left
             if not any(ch.isalpha() for ch in left.replace("AND", "").replace("OR", "").replace("XOR", "")):
@@ -609,3 +614,46 @@ def gen_constexpr(seed: int):
     else:
         lines += [f"Signal c = {e};", "Signal r = x + c;"]
     return "\n".join(lines) + "\n", meta
+
+
+# ------------------------------------------------------------------ CSE / constant-propagation stress (C10)
+def gen_cse(seed: int) -> str:
+    """Repeated sub-expressions that differ in exactly one field (operator, operand, output type,
+    output mode, output constant), folded values feeding different consumer kinds."""
+    rng = random.Random(seed)
+    lines, names = _inputs(rng, rng.randint(2, 3))
+    a, b = names[0][0], names[1][0]
+    c1, c2 = rng.randint(-5, 9), rng.randint(-5, 9)
+    k1, k2 = rng.randint(2, 30), rng.randint(31, 60)
+    cmp1 = rng.choice(CMP)
+    variants = [
+        (f"(({a} {cmp1} {c1}) : {k1})", f"(({a} {cmp1} {c1}) : {k2})"),              # output constant differs
+        (f"(({a} {cmp1} {c1}) : {b})", f"(({a} {cmp1} {c1}) : 1)"),                   # output mode differs
+        (f"(({a} {cmp1} {c1}) : {b})", f"(({a} {cmp1} {c1}) : {a})"),                 # copied signal differs
+        (f"({a} {cmp1} {c1})", f"({a} {cmp1} {c2})"),                                 # operand differs
+        (f"({a} + {b})", f"({a} - {b})"),                                             # operator differs
+        (f"(({a} * {k1}) | \"signal-1\")", f"(({a} * {k1}) | \"signal-2\")"),         # output type differs
+        (f"({a} * {k1})", f"({a} * {k1})"),                                           # genuinely equal: may be shared
+        (f"(({a} > {c1}) && ({b} < {c2}))", f"(({a} > {c1}) && ({b} <= {c2}))"),      # multi-condition rows differ
+        (f"(({a} > {c1}) && ({b} < {c2}))", f"(({a} > {c1}) || ({b} < {c2}))"),       # and / or differs
+    ]
+    rng.shuffle(variants)
+    n = 0
+    for x, y in variants[: rng.randint(1, 3)]:
+        n += 1
+        lines.append(f"Signal u{n} = {x};")
+        lines.append(f"Signal v{n} = {y};")
+        if rng.random() < 0.5:
+            lines.append(f"Signal w{n} = (u{n} | \"signal-8\") + (v{n} | \"signal-9\");")
+    # folded constants feeding different consumers
+    r = rng.random()
+    if r < 0.3:
+        lines.append(f"Signal f1 = ({a} + ({k1} * 2 + 1));")
+    elif r < 0.5:
+        lines.append(f'Entity lampc = place("small-lamp", 0, 5);')
+        lines.append(f"lampc.enable = {a} > ({k1} - 3);")
+    elif r < 0.7:
+        lines.append(f'Memory mc: "signal-7";')
+        lines.append(f"mc.write(({a} | \"signal-7\"), when=({b} > ({c1} + 1)));")
+        lines.append("Signal rc = mc.read();")
+    return "\n".join(lines) + "\n"
